@@ -75,6 +75,21 @@ def occurs_max(t):
 
 
 # ------------------------------------------------------------------------- XML
+NOISE = [None]
+HEADERS = [None]      # [(class name, type expr, value), ...] written into the SOAP Header
+
+
+def _noisy_text(s):
+    """the same character data, interrupted by a comment (XML comments do not change what a document denotes)"""
+    if NOISE[0] == 'comments' and len(s) >= 2:
+        return s[:1] + '<!-- c -->' + s[1:]
+    return s
+
+
+def _between():
+    return '<!-- between -->\n  ' if NOISE[0] == 'comments' else ''
+
+
 def xml_member(gen, name, t, v, ns, pref):
     """-> xml text of member `name` (possibly several elements) in namespace prefix pref[ns]"""
     if v is None:
@@ -87,9 +102,9 @@ def xml_member(gen, name, t, v, ns, pref):
         return '<%s xsi:nil="true"/>' % q
     k = t['k']
     if k in ('prim', 'enum'):
-        return '<%s>%s</%s>' % (q, xml_escape(lex(v)), q)
+        return '%s<%s>%s</%s>' % (_between(), q, _noisy_text(xml_escape(lex(v))), q)
     if k == 'obj':
-        return '<%s%s>%s</%s>' % (q, xml_attrs(t, v), xml_fields(gen, t, v, pref), q)
+        return '%s<%s%s>%s</%s>' % (_between(), q, xml_attrs(t, v), xml_fields(gen, t, v, pref), q)
     if k == 'arr':
         it = t['of']
         # items are named after the member type; the name Spyne chose is read off the array class
@@ -227,14 +242,36 @@ def flat_query(args):
 
 
 # --------------------------------------------------------------------- request
-def request(gen, fam, method, args, style='wrapped'):
-    """-> (environ additions, body bytes)"""
+def request(gen, fam, method, args, style='wrapped', noise=None, headers=None):
+    """-> (environ additions, body bytes).  noise='comments': the same document with XML comments inside
+    leaf values, between members and in front of the message element."""
+    NOISE[0] = noise
+    HEADERS[0] = headers
+    try:
+        return _request(gen, fam, method, args, style)
+    finally:
+        NOISE[0] = None
+
+
+def _request(gen, fam, method, args, style='wrapped'):
     env = {'REQUEST_METHOD': 'POST', 'PATH_INFO': '/', 'QUERY_STRING': ''}
     if fam == 'xml':
         body = xml_body(gen, method, args, style=style).encode('utf8'); env['CONTENT_TYPE'] = 'text/xml; charset=utf-8'
     elif fam in ('soap11', 'soap12'):
         e = E11 if fam == 'soap11' else E12
-        body = ('<e:Envelope xmlns:e="%s"><e:Body>%s</e:Body></e:Envelope>' % (e, xml_body(gen, method, args, style=style))).encode('utf8')
+        hdr = ''
+        if HEADERS[0]:
+            hm = {}
+
+            def hpref(ns):
+                if ns not in hm:
+                    hm[ns] = 'h%d' % len(hm)
+                return hm[ns]
+            inner = ''.join(xml_member(gen, n, t, v, t.get('ns', gen.tns), hpref) for n, t, v in HEADERS[0] if v is not None)
+            if inner:
+                hdr = '<e:Header%s xmlns:xsi="%s">%s</e:Header>' % (''.join(' xmlns:%s="%s"' % (p, ns) for ns, p in hm.items()), XSI, inner)
+        body = ('<e:Envelope xmlns:e="%s">%s<e:Body>%s%s</e:Body></e:Envelope>' % (
+            e, hdr, '<!-- first child of Body -->' if NOISE[0] == 'comments' else '', xml_body(gen, method, args, style=style))).encode('utf8')
         env['CONTENT_TYPE'] = 'text/xml; charset=utf-8' if fam == 'soap11' else 'application/soap+xml; charset=utf-8'
     elif fam == 'json':
         body = json.dumps(dict_body(method, args, fam)).encode('utf8'); env['CONTENT_TYPE'] = 'application/json'
